@@ -15,6 +15,8 @@ type Env struct {
 	st    *State // current state
 	old   *State // state at function entry / before the call
 	pkg   *types.Package
+	pkgPath string
+	pol   int // +1: evaluating a proof goal positively, -1: negatively, 0: assumption / unknown
 	what  string
 }
 
@@ -35,6 +37,19 @@ func (env *Env) with(name string, v *SV) *Env {
 	n.names[name] = v
 	return &n
 }
+
+func (env *Env) withPol(p int) *Env {
+	if env.pol == p {
+		return env
+	}
+	n := *env
+	n.pol = p
+	return &n
+}
+
+// evalGoal evaluates a boolean expression that is about to be proved:
+// universally quantified sub-formulas in positive position are skolemised.
+func (env *Env) evalGoal(e Expr) string { return env.withPol(1).evalBool(e) }
 
 func (env *Env) inOld() *Env {
 	n := *env
@@ -83,7 +98,7 @@ func (env *Env) eval(e Expr) *SV {
 	case Unary:
 		switch e.Op {
 		case "!":
-			return ghostBool(not(env.evalBool(e.X)))
+			return ghostBool(not(env.withPol(-env.pol).evalBool(e.X)))
 		case "-":
 			x := env.eval(e.X)
 			if x.Untyped != nil {
@@ -186,9 +201,60 @@ func (vc *VC) loadPure(st *State, addr *SV, t types.Type) *SV {
 	l := layout(t)
 	v := &SV{T: t, C: make([]string, len(l))}
 	for i, s := range l {
-		v.C[i] = sel2(st.H[s.heap()], addr.C[0], cellIdx(addr.C[1], i))
+		v.C[i] = vc.known(sel2(st.H[s.heap()], addr.C[0], cellIdx(addr.C[1], i)))
 	}
 	return v
+}
+
+// known replaces a term by the literal it is known to equal (from a split or a
+// requires conjunct of the form  location == constant).
+func (vc *VC) known(t string) string {
+	if c, ok := vc.consts[t]; ok {
+		return c
+	}
+	return t
+}
+
+// learnConsts records  location == literal  facts among the conjuncts of e.
+func (env *Env) learnConsts(e Expr) {
+	switch x := e.(type) {
+	case Binary:
+		switch x.Op {
+		case "&&":
+			env.learnConsts(x.X)
+			env.learnConsts(x.Y)
+		case "==":
+			func() {
+				defer func() { recover() }()
+				a, b := env.eval(x.X), env.eval(x.Y)
+				if len(a.C) != 1 || len(b.C) != 1 || a.Untyped != nil && b.Untyped != nil {
+					return
+				}
+				ta, tb, _, _ := env.coerce(a, b, x)
+				_, _, la := litVal(ta)
+				_, _, lb := litVal(tb)
+				if la && !lb && strings.HasPrefix(tb, "(select (select ") {
+					env.vc.consts[tb] = ta
+				}
+				if lb && !la && strings.HasPrefix(ta, "(select (select ") {
+					env.vc.consts[ta] = tb
+				}
+			}()
+		}
+	case CallE:
+		if env.pkg != nil && env.pkgPath == "" {
+			env.pkgPath = env.pkg.Path()
+		}
+		if m, ok := env.vc.eng.contracts.Macros[env.pkgPath+"::"+x.Fn]; ok && len(m.Params) == len(x.Args) {
+			menv := *env
+			menv.names = map[string]*SV{}
+			menv.lets = map[string]Expr{}
+			for i, p := range m.Params {
+				menv.names[p] = env.eval(x.Args[i])
+			}
+			menv.learnConsts(m.E)
+		}
+	}
 }
 
 func (env *Env) toBV64(v *SV) string {
@@ -231,9 +297,12 @@ func (env *Env) evalBinary(e Binary) *SV {
 	case "||":
 		return ghostBool(or(env.evalBool(e.X), env.evalBool(e.Y)))
 	case "==>":
-		return ghostBool(implies(env.evalBool(e.X), env.evalBool(e.Y)))
+		return ghostBool(implies(env.withPol(-env.pol).evalBool(e.X), env.evalBool(e.Y)))
 	case "<==>":
-		return ghostBool(eq(env.evalBool(e.X), env.evalBool(e.Y)))
+		return ghostBool(eq(env.withPol(0).evalBool(e.X), env.withPol(0).evalBool(e.Y)))
+	}
+	if env.pol != 0 {
+		env = env.withPol(0)
 	}
 	x := env.eval(e.X)
 	y := env.eval(e.Y)
@@ -298,7 +367,7 @@ func (env *Env) evalBinary(e Binary) *SV {
 				op = "bvashr"
 			}
 		}
-		return &SV{Sort: s, Signed: x.signed(), C: []string{app(op, x.term(), cnt)}}
+		return &SV{Sort: s, Signed: x.signed(), C: []string{appf(op, x.term(), cnt)}}
 	}
 	a, b, s, sg := env.coerce(x, y, e)
 	if s == SBool {
@@ -313,27 +382,21 @@ func (env *Env) evalBinary(e Binary) *SV {
 	mk := func(t string) *SV { return &SV{Sort: s, Signed: sg, C: []string{t}} }
 	switch e.Op {
 	case "+":
-		return mk(app("bvadd", a, b))
+		return mk(appf("bvadd", a, b))
 	case "-":
-		return mk(app("bvsub", a, b))
+		return mk(appf("bvsub", a, b))
 	case "*":
-		return mk(app("bvmul", a, b))
+		return mk(appf("bvmul", a, b))
 	case "/":
-		if sg {
-			return mk(app("bvsdiv", a, b))
-		}
-		return mk(app("bvudiv", a, b))
+		return mk(env.vc.divTerm(a, b, s.Bits(), sg, false))
 	case "%":
-		if sg {
-			return mk(app("bvsrem", a, b))
-		}
-		return mk(app("bvurem", a, b))
+		return mk(env.vc.divTerm(a, b, s.Bits(), sg, true))
 	case "&":
-		return mk(app("bvand", a, b))
+		return mk(appf("bvand", a, b))
 	case "|":
-		return mk(app("bvor", a, b))
+		return mk(appf("bvor", a, b))
 	case "^":
-		return mk(app("bvxor", a, b))
+		return mk(appf("bvxor", a, b))
 	case "&^":
 		return mk(app("bvand", a, app("bvnot", b)))
 	case "==":
@@ -344,7 +407,7 @@ func (env *Env) evalBinary(e Binary) *SV {
 		op := map[bool]map[string]string{
 			true:  {"<": "bvslt", "<=": "bvsle", ">": "bvsgt", ">=": "bvsge"},
 			false: {"<": "bvult", "<=": "bvule", ">": "bvugt", ">=": "bvuge"}}[sg][e.Op]
-		return ghostBool(app(op, a, b))
+		return ghostBool(appf(op, a, b))
 	}
 	env.fail("unknown operator %s", e.Op)
 	return nil
@@ -444,12 +507,22 @@ func (env *Env) evalCall(e CallE) *SV {
 	case "Spos", "Send", "Wlen":
 		need(1)
 		s := arg(0).term()
+		if e.Fn == "Wlen" {
+			vc.saneSink(s)
+		} else {
+			vc.saneStream(s)
+		}
 		if e.Fn == "Send" {
 			return ghostBV(64, true, sel("Send", s))
 		}
 		return ghostBV(64, true, sel(env.st.H[e.Fn], s))
 	case "Sfail", "Wfail":
 		need(1)
+		if e.Fn == "Wfail" {
+			vc.saneSink(arg(0).term())
+		} else {
+			vc.saneStream(arg(0).term())
+		}
 		return ghostBool(sel(env.st.H[e.Fn], arg(0).term()))
 	case "Sin":
 		need(2)
@@ -462,7 +535,7 @@ func (env *Env) evalCall(e CallE) *SV {
 		return ghostBV(64, true, sel(env.st.H["Gh"], arg(0).term()))
 	case "ite":
 		need(3)
-		c := env.evalBool(e.Args[0])
+		c := env.withPol(0).evalBool(e.Args[0])
 		a, b, s, sg := env.coerce(arg(1), arg(2), e)
 		return &SV{Sort: s, Signed: sg, C: []string{ite(c, a, b)}}
 	case "u", "s":
@@ -488,8 +561,20 @@ func (env *Env) evalCall(e CallE) *SV {
 			}
 			return ghostBool(or(parts...))
 		}
+		if (e.Fn == "all" && env.pol > 0) || (e.Fn == "any" && env.pol < 0) {
+			// goal position: replace the bound variable by a fresh constant
+			sk := vc.freshS(SBV64, "sk_"+id.Name)
+			body := env.with(id.Name, ghostBV(64, true, sk)).evalBool(e.Args[3])
+			rng := and(app("bvsle", env.toBV64(lo), sk), app("bvslt", sk, env.toBV64(hi)))
+			if e.Fn == "all" {
+				return ghostBool(implies(rng, body))
+			}
+			return ghostBool(and(rng, body))
+		}
 		q := vc.freshName("q_" + id.Name)
-		body := env.with(id.Name, ghostBV(64, true, q)).evalBool(e.Args[3])
+		vc.bound = append(vc.bound, q)
+		defer func() { vc.bound = vc.bound[:len(vc.bound)-1] }()
+		body := env.with(id.Name, ghostBV(64, true, q)).withPol(0).evalBool(e.Args[3])
 		rng := and(app("bvsle", env.toBV64(lo), q), app("bvslt", q, env.toBV64(hi)))
 		if e.Fn == "all" {
 			return ghostBool(fmt.Sprintf("(forall ((%s (_ BitVec 64))) %s)", q, implies(rng, body)))
@@ -524,6 +609,21 @@ func (env *Env) evalCall(e CallE) *SV {
 			env.fail("unknown type %s", id.Name)
 		}
 		return &SV{Sort: STid, C: []string{vc.eng.typeID(t)}}
+	}
+	if env.pkg != nil && env.pkgPath == "" {
+		env.pkgPath = env.pkg.Path()
+	}
+	if env.pkgPath != "" {
+		if m, ok := vc.eng.contracts.Macros[env.pkgPath+"::"+e.Fn]; ok {
+			need(len(m.Params))
+			menv := *env
+			menv.names = map[string]*SV{}
+			menv.lets = map[string]Expr{}
+			for i, p := range m.Params {
+				menv.names[p] = arg(i)
+			}
+			return menv.eval(m.E)
+		}
 	}
 	if sf, ok := vc.eng.spec.funcs[e.Fn]; ok {
 		need(len(sf.args))
